@@ -20,11 +20,15 @@ Import ListNotations.
 
 (** * The test does not look at the host *)
 
-Lemma glue_calls_host_independent s st h1 h2 : glue_calls s st h1 = glue_calls s st h2.
+Lemma glue_calls_host_independent s st qt h1 h2 : glue_calls s st qt h1 = glue_calls s st qt h2.
 Proof. reflexivity. Qed.
 
-Lemma glue_calls_spec s st h :
-  glue_calls s st h = true <-> st_protection st = true /\ svc_enabled s st = true.
+(** ... nor at the type of the question (round 6). *)
+Lemma glue_calls_qtype_independent s st q1 q2 h : glue_calls s st q1 h = glue_calls s st q2 h.
+Proof. reflexivity. Qed.
+
+Lemma glue_calls_spec s st qt h :
+  glue_calls s st qt h = true <-> st_protection st = true /\ svc_enabled s st = true.
 Proof. unfold glue_calls. apply andb_true_iff. Qed.
 
 (** * Which requests reach the checkers *)
@@ -34,8 +38,8 @@ Section Calls.
   Variable pc : bytes -> C2 -> C2 * check_out.
 
   (** What the safe-browsing checker sees. *)
-  Lemma glue_sb_called st spelled c1 c2 :
-    match g_sb (snd (glue_check_host sb pc st spelled c1 c2)) with
+  Lemma glue_sb_called st qt spelled c1 c2 :
+    match g_sb (snd (glue_check_host sb pc st qt spelled c1 c2)) with
     | Some (h, o) =>
         spelled <> [] /\ st_protection st = true /\ st_safebrowsing st = true /\
         h = lower spelled /\ o = snd (sb (lower spelled) c1)
@@ -58,8 +62,8 @@ Section Calls.
 
   (** What the parental-control checker sees: the same name, unless safe
       browsing failed or blocked. *)
-  Lemma glue_pc_called st spelled c1 c2 :
-    let out := snd (glue_check_host sb pc st spelled c1 c2) in
+  Lemma glue_pc_called st qt spelled c1 c2 :
+    let out := snd (glue_check_host sb pc st qt spelled c1 c2) in
     match g_pc out with
     | Some (h, o) =>
         spelled <> [] /\ st_protection st = true /\ st_parental st = true /\ h = lower spelled /\
@@ -185,9 +189,9 @@ Section Compose.
   Hypothesis Hv1 : v1 [] = false.
   Hypothesis Hv2 : v2 [] = false.
 
-  Lemma glue_check_host_spec st spelled c1 c2 :
+  Lemma glue_check_host_spec st qt spelled c1 c2 :
     inv1 c1 -> inv2 c2 ->
-    let res := glue_check_host sb pc st spelled c1 c2 in
+    let res := glue_check_host sb pc st qt spelled c1 c2 in
     inv1 (fst (fst res)) /\ inv2 (snd (fst res)) /\
     (g_err (snd res) = false -> g_reason (snd res) = glue_verdict v1 v2 st spelled) /\
     (g_err (snd res) = true -> g_reason (snd res) = RNotFiltered).
@@ -233,14 +237,14 @@ Section Compose.
       their state): every request that does not fail is answered by
       [glue_verdict], whatever was asked before. *)
   Theorem glue_run_spec : forall reqs c1 c2, inv1 c1 -> inv2 c2 ->
-    Forall2 (fun (req : settings * bytes) out =>
-               (g_err out = false -> g_reason out = glue_verdict v1 v2 (fst req) (snd req)) /\
+    Forall2 (fun (req : settings * qtype * bytes) out =>
+               (g_err out = false -> g_reason out = glue_verdict v1 v2 (fst (fst req)) (snd req)) /\
                (g_err out = true -> g_reason out = RNotFiltered))
             reqs (glue_run sb pc reqs c1 c2).
   Proof.
-    induction reqs as [|[st spelled] r IH]; intros c1 c2 I1 I2; cbn [glue_run]; [constructor|].
-    pose proof (glue_check_host_spec st spelled c1 c2 I1 I2) as H. cbn zeta in H.
-    destruct (glue_check_host sb pc st spelled c1 c2) as [[c1' c2'] out]. cbn [fst snd] in H.
+    induction reqs as [|[[st qt] spelled] r IH]; intros c1 c2 I1 I2; cbn [glue_run]; [constructor|].
+    pose proof (glue_check_host_spec st qt spelled c1 c2 I1 I2) as H. cbn zeta in H.
+    destruct (glue_check_host sb pc st qt spelled c1 c2) as [[c1' c2'] out]. cbn [fst snd] in H.
     destruct H as (A & B & C & D). constructor; auto.
   Qed.
 End Compose.
@@ -293,10 +297,10 @@ Section Instance.
   (** For every host, every pair of databases, exact caches and every
       settings: one request through the glue and the two Checkers. *)
   Theorem glue_blocks_iff_listed sfx1 sfx2 ct1 ct2 db1 db2 svc1 svc2 ord1 ord2 ev1 ev2 now1 now2
-      st spelled c1 c2 :
+      st qt spelled c1 c2 :
     cache_inv db1 c1 -> cache_inv db2 c2 -> svc_ok db1 svc1 -> svc_ok db2 svc2 ->
     let res := glue_check_host (check sha pubsuf sfx1 ct1 svc1 ord1 ev1 now1)
-                               (check sha pubsuf sfx2 ct2 svc2 ord2 ev2 now2) st spelled c1 c2 in
+                               (check sha pubsuf sfx2 ct2 svc2 ord2 ev2 now2) st qt spelled c1 c2 in
     cache_inv db1 (fst (fst res)) /\ cache_inv db2 (snd (fst res)) /\
     (g_err (snd res) = false ->
      g_reason (snd res) = glue_verdict (db_verdict sha pubsuf db1) (db_verdict sha pubsuf db2) st spelled) /\
@@ -309,32 +313,32 @@ Section Instance.
 
   (** One service enabled for the request: blocked iff listed. *)
   Corollary glue_safebrowsing_iff_listed sfx1 sfx2 ct1 ct2 db1 db2 svc1 svc2 ord1 ord2 ev1 ev2 now1 now2
-      st spelled c1 c2 :
+      st qt spelled c1 c2 :
     cache_inv db1 c1 -> cache_inv db2 c2 -> svc_ok db1 svc1 -> svc_ok db2 svc2 ->
     st_protection st = true -> st_safebrowsing st = true ->
     let out := snd (glue_check_host (check sha pubsuf sfx1 ct1 svc1 ord1 ev1 now1)
-                                    (check sha pubsuf sfx2 ct2 svc2 ord2 ev2 now2) st spelled c1 c2) in
+                                    (check sha pubsuf sfx2 ct2 svc2 ord2 ev2 now2) st qt spelled c1 c2) in
     g_err out = false -> (g_reason out = RSafeBrowsing <-> listed db1 (lower spelled)).
   Proof.
     intros I1 I2 S1 S2 P E.
     destruct (glue_blocks_iff_listed sfx1 sfx2 ct1 ct2 db1 db2 svc1 svc2 ord1 ord2 ev1 ev2 now1 now2
-                st spelled c1 c2 I1 I2 S1 S2) as (_ & _ & H & _).
+                st qt spelled c1 c2 I1 I2 S1 S2) as (_ & _ & H & _).
     cbn zeta in *. intros Er. rewrite (H Er).
     destruct (glue_verdict_listed db1 db2 st spelled) as (A & _). cbn zeta in A. rewrite A.
     unfold svc_on. rewrite P. cbn. rewrite E. tauto.
   Qed.
 
   Corollary glue_parental_iff_listed sfx1 sfx2 ct1 ct2 db1 db2 svc1 svc2 ord1 ord2 ev1 ev2 now1 now2
-      st spelled c1 c2 :
+      st qt spelled c1 c2 :
     cache_inv db1 c1 -> cache_inv db2 c2 -> svc_ok db1 svc1 -> svc_ok db2 svc2 ->
     st_protection st = true -> st_safebrowsing st = false -> st_parental st = true ->
     let out := snd (glue_check_host (check sha pubsuf sfx1 ct1 svc1 ord1 ev1 now1)
-                                    (check sha pubsuf sfx2 ct2 svc2 ord2 ev2 now2) st spelled c1 c2) in
+                                    (check sha pubsuf sfx2 ct2 svc2 ord2 ev2 now2) st qt spelled c1 c2) in
     g_err out = false -> (g_reason out = RParental <-> listed db2 (lower spelled)).
   Proof.
     intros I1 I2 S1 S2 P E1 E2.
     destruct (glue_blocks_iff_listed sfx1 sfx2 ct1 ct2 db1 db2 svc1 svc2 ord1 ord2 ev1 ev2 now1 now2
-                st spelled c1 c2 I1 I2 S1 S2) as (_ & _ & H & _).
+                st qt spelled c1 c2 I1 I2 S1 S2) as (_ & _ & H & _).
     cbn zeta in *. intros Er. rewrite (H Er).
     destruct (glue_verdict_listed db1 db2 st spelled) as (_ & A & _). cbn zeta in A. rewrite A.
     unfold svc_on. rewrite P. cbn. rewrite E1, E2. intuition discriminate.
@@ -344,18 +348,18 @@ Section Instance.
       a single label, or any other name of at most four labels whose suffix is
       not an ICANN one, is blocked. *)
   Corollary glue_listed_non_icann_name_blocks sfx1 sfx2 ct1 ct2 db1 db2 svc1 svc2 ord1 ord2 ev1 ev2 now1 now2
-      st spelled c1 c2 :
+      st qt spelled c1 c2 :
     cache_inv db1 c1 -> cache_inv db2 c2 -> svc_ok db1 svc1 -> svc_ok db2 svc2 ->
     st_protection st = true -> st_safebrowsing st = true ->
     spelled <> [] -> snd (pubsuf (lower spelled)) = false -> (count dot (lower spelled) < 4)%nat ->
     In (sha (lower spelled)) db1 ->
     let out := snd (glue_check_host (check sha pubsuf sfx1 ct1 svc1 ord1 ev1 now1)
-                                    (check sha pubsuf sfx2 ct2 svc2 ord2 ev2 now2) st spelled c1 c2) in
+                                    (check sha pubsuf sfx2 ct2 svc2 ord2 ev2 now2) st qt spelled c1 c2) in
     g_err out = false -> g_reason out = RSafeBrowsing.
   Proof.
     intros I1 I2 S1 S2 P E Hn Hs Hc Hdb out Er.
     apply (glue_safebrowsing_iff_listed sfx1 sfx2 ct1 ct2 db1 db2 svc1 svc2 ord1 ord2 ev1 ev2 now1 now2
-             st spelled c1 c2); auto.
+             st qt spelled c1 c2); auto.
     exists (lower spelled). split; auto. apply non_icann_own_name_enumerated; auto.
     destruct spelled; [congruence|discriminate].
   Qed.
@@ -365,10 +369,10 @@ Section Instance.
   Theorem glue_history_blocks_iff_listed sfx1 sfx2 ct1 ct2 db1 db2 svc1 svc2 ord1 ord2 ev1 ev2 now1 now2 :
     svc_ok db1 svc1 -> svc_ok db2 svc2 ->
     forall reqs c1 c2, cache_inv db1 c1 -> cache_inv db2 c2 ->
-    Forall2 (fun (req : settings * bytes) out =>
+    Forall2 (fun (req : settings * qtype * bytes) out =>
                (g_err out = false ->
                 g_reason out = glue_verdict (db_verdict sha pubsuf db1) (db_verdict sha pubsuf db2)
-                                            (fst req) (snd req)) /\
+                                            (fst (fst req)) (snd req)) /\
                (g_err out = true -> g_reason out = RNotFiltered))
             reqs (glue_run (check sha pubsuf sfx1 ct1 svc1 ord1 ev1 now1)
                            (check sha pubsuf sfx2 ct2 svc2 ord2 ev2 now2) reqs c1 c2).
@@ -406,11 +410,11 @@ Example glue_premises_satisfiable :
     = [GlueExamples.github_io; [105;111]%N] /\
   names_to_hash GlueExamples.pubsuf GlueExamples.intranet = [GlueExamples.intranet] /\
   names_to_hash GlueExamples.pubsuf GlueExamples.com = [] /\
-  g_reason (snd (glue_check_host GlueExamples.chk GlueExamples.chk GlueExamples.on
+  g_reason (snd (glue_check_host GlueExamples.chk GlueExamples.chk GlueExamples.on 1%N
                    GlueExamples.github_io [] [])) = RSafeBrowsing /\
-  g_reason (snd (glue_check_host GlueExamples.chk GlueExamples.chk GlueExamples.on
+  g_reason (snd (glue_check_host GlueExamples.chk GlueExamples.chk GlueExamples.on 1%N
                    GlueExamples.intranet [] [])) = RSafeBrowsing /\
-  g_reason (snd (glue_check_host GlueExamples.chk GlueExamples.chk GlueExamples.on
+  g_reason (snd (glue_check_host GlueExamples.chk GlueExamples.chk GlueExamples.on 1%N
                    GlueExamples.com [] [])) = RNotFiltered.
 Proof.
   assert (W : Forall hash_wf GlueExamples.db).
@@ -428,14 +432,79 @@ Theorem glue_bare_suffix_shortcut_refuted :
     snd (pubsuf host) = false /\
     In host (names_to_hash pubsuf host) /\ In (sha host) db /\ Forall hash_wf db /\
     let chk := check sha pubsuf GlueExamples.sfx (3600 * ns_sec)%Z (db_service db) [] [] 0%Z in
-    g_reason (snd (glue_check_host chk chk st host [] [])) = RSafeBrowsing /\
-    g_reason (snd (glue_check_host_with (glue_calls_bare pubsuf) chk chk st host [] [])) = RNotFiltered /\
-    g_sb (snd (glue_check_host_with (glue_calls_bare pubsuf) chk chk st host [] [])) = None.
+    g_reason (snd (glue_check_host chk chk st 1%N host [] [])) = RSafeBrowsing /\
+    g_reason (snd (glue_check_host_with (glue_calls_bare pubsuf) chk chk st 1%N host [] [])) = RNotFiltered /\
+    g_sb (snd (glue_check_host_with (glue_calls_bare pubsuf) chk chk st 1%N host [] [])) = None.
 Proof.
   exists GlueExamples.sha, GlueExamples.pubsuf, GlueExamples.db, GlueExamples.on, GlueExamples.github_io.
   split; [reflexivity|]. split; [reflexivity|]. split; [reflexivity|].
   split; [vm_compute; auto|]. split; [now left|].
   split; [apply glue_premises_satisfiable|].
+  cbn zeta. repeat split; vm_compute; reflexivity.
+Qed.
+
+(** * Round 6: the type of the question
+
+    [CheckHost] hands the question type to every host checker;
+    [checkSafeBrowsing] and [checkParental] take it as the blank parameter.
+    So the whole result of the path (both caches, what each checker was called
+    with, reason, error) is the same for any two types, for any two checkers,
+    over any history. *)
+Theorem glue_check_host_ignores_qtype {C1 C2 : Type} (sb : bytes -> C1 -> C1 * check_out)
+    (pc : bytes -> C2 -> C2 * check_out) st q1 q2 spelled c1 c2 :
+  glue_check_host sb pc st q1 spelled c1 c2 = glue_check_host sb pc st q2 spelled c1 c2.
+Proof. reflexivity. Qed.
+
+(** Two histories that differ only in the types of the questions. *)
+Definition drop_qtype (req : settings * qtype * bytes) : settings * bytes := (fst (fst req), snd req).
+
+Theorem glue_run_ignores_qtype {C1 C2 : Type} (sb : bytes -> C1 -> C1 * check_out)
+    (pc : bytes -> C2 -> C2 * check_out) : forall reqs1 reqs2 c1 c2,
+  map drop_qtype reqs1 = map drop_qtype reqs2 ->
+  glue_run sb pc reqs1 c1 c2 = glue_run sb pc reqs2 c1 c2.
+Proof.
+  induction reqs1 as [|[[st q1] sp] r1 IH]; intros [|[[st' q2] sp'] r2] c1 c2 E; try discriminate; auto.
+  cbn [map drop_qtype fst snd] in E. injection E as -> -> E.
+  cbn [glue_run]. rewrite (glue_check_host_ignores_qtype sb pc st' q1 q2 sp' c1 c2).
+  destruct (glue_check_host sb pc st' q2 sp' c1 c2) as [[c1' c2'] out]. f_equal. now apply IH.
+Qed.
+
+(** In the terms of the property: a listed name is blocked whatever the type
+    of the question (A, AAAA, HTTPS, TXT, MX, CNAME, SRV, SVCB, NS, PTR, ANY,
+    a private-use type, ...), by the service that lists it. *)
+Corollary glue_listed_blocks_every_qtype sha pubsuf sfx1 sfx2 ct1 ct2 db1 db2 svc1 svc2 ord1 ord2 ev1 ev2
+    now1 now2 st spelled c1 c2 :
+  cache_inv db1 c1 -> cache_inv db2 c2 -> svc_ok db1 svc1 -> svc_ok db2 svc2 ->
+  st_protection st = true -> st_safebrowsing st = true -> listed sha pubsuf db1 (lower spelled) ->
+  forall qt : qtype,
+  let out := snd (glue_check_host (check sha pubsuf sfx1 ct1 svc1 ord1 ev1 now1)
+                                  (check sha pubsuf sfx2 ct2 svc2 ord2 ev2 now2) st qt spelled c1 c2) in
+  g_err out = false -> g_reason out = RSafeBrowsing.
+Proof.
+  intros I1 I2 S1 S2 P E L qt out Er.
+  now apply (glue_safebrowsing_iff_listed sha pubsuf sfx1 sfx2 ct1 ct2 db1 db2 svc1 svc2 ord1 ord2 ev1 ev2
+               now1 now2 st qt spelled c1 c2).
+Qed.
+
+(** The variant of red-team change C19-L (the lookup only for A, AAAA and
+    HTTPS questions): the same listed name, the same switches, the same
+    service: blocked for an A question, and for a TXT question (16) not looked
+    up at all; the code blocks it for both. *)
+Theorem glue_address_types_only_refuted :
+  exists sha pubsuf db st host (qt : qtype),
+    st_protection st = true /\ st_safebrowsing st = true /\
+    In host (names_to_hash pubsuf host) /\ In (sha host) db /\ Forall hash_wf db /\
+    is_block_host_qtype qt = false /\
+    let chk := check sha pubsuf GlueExamples.sfx (3600 * ns_sec)%Z (db_service db) [] [] 0%Z in
+    g_reason (snd (glue_check_host chk chk st qt host [] [])) = RSafeBrowsing /\
+    g_reason (snd (glue_check_host_with glue_calls_addr chk chk st 1%N host [] [])) = RSafeBrowsing /\
+    g_reason (snd (glue_check_host_with glue_calls_addr chk chk st qt host [] [])) = RNotFiltered /\
+    g_sb (snd (glue_check_host_with glue_calls_addr chk chk st qt host [] [])) = None.
+Proof.
+  exists GlueExamples.sha, GlueExamples.pubsuf, GlueExamples.db, GlueExamples.on, GlueExamples.intranet, 16%N.
+  split; [reflexivity|]. split; [reflexivity|].
+  split; [vm_compute; auto|]. split; [right; now left|].
+  split; [apply glue_premises_satisfiable|]. split; [reflexivity|].
   cbn zeta. repeat split; vm_compute; reflexivity.
 Qed.
 
@@ -458,29 +527,29 @@ From AGH Require Import Model.HashPrefixLRU Proofs.HashPrefixHist.
     names of that name without a valid entry, nothing else; in particular
     nothing derived from the spelling of the request. *)
 Theorem glue_safebrowsing_question_exact {C2 : Type} sha pubsuf sfx ct svc ord ev now
-    (pc : bytes -> C2 -> C2 * check_out) st spelled c1 c2 h o q :
-  g_sb (snd (glue_check_host (check sha pubsuf sfx ct svc ord ev now) pc st spelled c1 c2)) = Some (h, o) ->
+    (pc : bytes -> C2 -> C2 * check_out) st qt spelled c1 c2 h o q :
+  g_sb (snd (glue_check_host (check sha pubsuf sfx ct svc ord ev now) pc st qt spelled c1 c2)) = Some (h, o) ->
   o_question o = Some q ->
   h = lower spelled /\
   unanswered sha pubsuf now c1 (lower spelled) <> [] /\
   q = question sfx (unanswered sha pubsuf now c1 (lower spelled)).
 Proof.
   intros G Q.
-  pose proof (glue_sb_called (check sha pubsuf sfx ct svc ord ev now) pc st spelled c1 c2) as H.
+  pose proof (glue_sb_called (check sha pubsuf sfx ct svc ord ev now) pc st qt spelled c1 c2) as H.
   rewrite G in H. destruct H as (_ & _ & _ & -> & ->). split; auto.
   now apply (question_exact sha pubsuf sfx ct svc ord ev now).
 Qed.
 
 Theorem glue_parental_question_exact {C1 : Type} sha pubsuf sfx ct svc ord ev now
-    (sb : bytes -> C1 -> C1 * check_out) st spelled c1 c2 h o q :
-  g_pc (snd (glue_check_host sb (check sha pubsuf sfx ct svc ord ev now) st spelled c1 c2)) = Some (h, o) ->
+    (sb : bytes -> C1 -> C1 * check_out) st qt spelled c1 c2 h o q :
+  g_pc (snd (glue_check_host sb (check sha pubsuf sfx ct svc ord ev now) st qt spelled c1 c2)) = Some (h, o) ->
   o_question o = Some q ->
   h = lower spelled /\
   unanswered sha pubsuf now c2 (lower spelled) <> [] /\
   q = question sfx (unanswered sha pubsuf now c2 (lower spelled)).
 Proof.
   intros G Q.
-  pose proof (glue_pc_called sb (check sha pubsuf sfx ct svc ord ev now) st spelled c1 c2) as H.
+  pose proof (glue_pc_called sb (check sha pubsuf sfx ct svc ord ev now) st qt spelled c1 c2) as H.
   cbn zeta in H. rewrite G in H. destruct H as (_ & _ & _ & -> & -> & _). split; auto.
   now apply (question_exact sha pubsuf sfx ct svc ord ev now).
 Qed.
